@@ -34,7 +34,6 @@ Notation M_append := (M_append L leq as_pos).
 Notation M_extend := (M_extend L leq as_pos).
 Notation M_contains := (M_contains L leq as_pos).
 Notation M_contains_state := (M_contains_state L as_pos).
-Notation dom_append := (dom_append L leq as_pos).
 Notation dom_extend := (dom_extend L leq as_pos).
 Notation dom_items := (dom_items L V leq as_pos cast resolve).
 Notation dom_gop := (dom_gop L V leq as_pos cast resolve).
@@ -201,36 +200,48 @@ Proof. intros c H. pose proof (wf_len_refresh L leq as_pos c H) as E. exact E. Q
 
 (* __setitem__ *)
 Lemma M_set_refines : forall f k v fill fdt,
-  fgo_wf f -> dom_append (f_cols f) k = true -> value_wfb v = true ->
+  fgo_wf f -> value_wfb v = true ->
   fstep_refines (M_set f k v fill fdt) (S_set (abs_fgo f) k v fill fdt).
 Proof.
-  intros [rows c t] k v fill fdt Hwf Hd Hv. pose proof Hwf as (Hc & Ht & Hn & Hr). cbn in Hc, Ht, Hn, Hr, Hd.
+  intros [rows c t] k v fill fdt Hwf Hv. pose proof Hwf as (Hc & Ht & Hn & Hr). cbn in Hc, Ht, Hn, Hr.
   unfold GrowOnly.M_set, GrowOnly.S_set. cbn [f_cols f_rows f_tb GrowOnly.abs_fgo s_labels s_rows s_cols].
-  rewrite (contains_correct L leq as_pos leq_refl leq_sym pos_eq c k Hc Hd).
   pose proof (contains_state_wf L leq as_pos c k Hc) as Hc1.
   pose proof (contains_state_lm L as_pos c k) as Hl1.
   pose proof (contains_state_cnt L as_pos c k) as Hn1.
-  assert (Hsame : fstep_refines (mk_fgo rows (M_contains_state c k) t, Err "RuntimeError"%string)
-                                (GrowOnly.abs_fgo L V (mk_fgo rows c t), Err "RuntimeError"%string)).
-  { split; [|split]; cbn; auto.
+  assert (Hsame : forall e e', fstep_refines (mk_fgo rows (M_contains_state c k) t, Err e)
+                                (GrowOnly.abs_fgo L V (mk_fgo rows c t), Err e')).
+  { intros e e'. split; [|split]; cbn; auto.
     - apply (fgo_wf_cols rows c); auto.
     - unfold GrowOnly.abs_fgo; cbn. now rewrite Hl1. }
-  destruct (mem k (g_lm c)) eqn:Hm; [exact Hsame|].
-  destruct (block_of rows v fill fdt) as [[dt vals]|e] eqn:Eb.
-  - pose proof (block_of_length _ _ _ _ _ _ Hv Eb) as Hlen.
-    pose proof (M_append_refines L leq as_pos leq_refl leq_sym pos_eq c k Hc Hd) as (Hw2 & Hl2 & Ho2).
-    unfold GrowOnly.S_append in Hl2, Ho2. rewrite Hm in Hl2, Ho2. cbn in Hl2, Ho2.
-    destruct (GrowOnly.M_append L leq as_pos c k) as [c2 o] eqn:Ea. cbn in Hw2, Hl2, Ho2.
-    destruct o as [u|e]; [|discriminate].
-    destruct (tb_append_col t dt vals Ht ltac:(congruence)) as (t2 & Et & Hwt & Hft & Hrt & Hnt).
-    rewrite Et. split; [|split]; cbn; auto.
-    + unfold fgo_wf; cbn. refine (conj Hw2 (conj Hwt (conj _ _))); [|congruence].
-      destruct Hw2 as (Hcnt & _). destruct Hc as (Hcnt0 & _).
-      rewrite Hnt, Hn, Hcnt, Hcnt0, Hl2, app_length. cbn. lia.
-    + unfold GrowOnly.abs_fgo; cbn. now rewrite Hl2, Hft.
-  - split; [|split]; cbn; auto.
-    + apply (fgo_wf_cols rows c); auto.
-    + unfold GrowOnly.abs_fgo; cbn. now rewrite Hl1.
+  pose proof (M_append_refines L leq as_pos leq_refl leq_sym pos_eq c k Hc) as (Hw2 & Hl2 & Ho2).
+  pose proof (M_append_ok_iff L leq as_pos leq_refl leq_sym pos_eq c k Hc) as Hok.
+  (* when __contains__ answers True the label is a member; when it answers False it may still be one
+     (a non-int label on a loc_is_iloc index), and then _columns.append rejects it *)
+  assert (Hcont : M_contains c k = true -> mem k (g_lm c) = true).
+  { intros Hct. destruct (mem k (g_lm c)) eqn:Hm; auto.
+    try rewrite Hm in Hok. cbn in Hok. unfold GrowOnly.M_append in Hok. rewrite Hct in Hok. discriminate. }
+  destruct (M_contains c k) eqn:Hct.
+  - rewrite (Hcont eq_refl). apply Hsame.
+  - destruct (mem k (g_lm c)) eqn:Hm.
+    + (* rejected by _columns.append *)
+      destruct (block_of rows v fill fdt) as [[dt vals]|e] eqn:Eb; [|apply Hsame].
+      unfold GrowOnly.S_append in Hl2. try rewrite Hm in Hl2. try rewrite Hm in Hok. cbn in Hl2, Hok.
+      destruct (GrowOnly.M_append L leq as_pos c k) as [c2 o] eqn:Ea. cbn in Hw2, Hl2, Hok.
+      destruct o as [u|e]; [discriminate|]. split; [|split]; cbn; auto.
+      * apply (fgo_wf_cols rows c); auto.
+        destruct Hw2 as (Hcnt & _). destruct Hc as (Hcnt0 & _). rewrite Hcnt, Hcnt0, Hl2. reflexivity.
+      * unfold GrowOnly.abs_fgo; cbn. now rewrite Hl2.
+    + destruct (block_of rows v fill fdt) as [[dt vals]|e] eqn:Eb; [|apply Hsame].
+      pose proof (block_of_length _ _ _ _ _ _ Hv Eb) as Hlen.
+      unfold GrowOnly.S_append in Hl2, Ho2. try rewrite Hm in Hl2. try rewrite Hm in Ho2. cbn in Hl2, Ho2.
+      destruct (GrowOnly.M_append L leq as_pos c k) as [c2 o] eqn:Ea. cbn in Hw2, Hl2, Ho2.
+      destruct o as [u|e]; [|discriminate].
+      destruct (tb_append_col t dt vals Ht ltac:(congruence)) as (t2 & Et & Hwt & Hft & Hrt & Hnt).
+      rewrite Et. split; [|split]; cbn; auto.
+      * unfold fgo_wf; cbn. refine (conj Hw2 (conj Hwt (conj _ _))); [|congruence].
+        destruct Hw2 as (Hcnt & _). destruct Hc as (Hcnt0 & _).
+        rewrite Hnt, Hn, Hcnt, Hcnt0, Hl2, app_length. cbn. lia.
+      * unfold GrowOnly.abs_fgo; cbn. now rewrite Hl2, Hft.
 Qed.
 
 Lemma S_set_err_same : forall a k v fill fdt,
@@ -248,8 +259,8 @@ Lemma M_items_all : forall pairs f fill fdt,
 Proof.
   induction pairs as [|[k v] r IH]; intros f fill fdt Hwf Hd; cbn in *.
   - split; [split; [|split]|]; auto.
-  - apply andb_true_iff in Hd as [Hd Hd2]. apply andb_true_iff in Hd as [Hda Hdv].
-    pose proof (M_set_refines f k v fill fdt Hwf Hda Hdv) as (Hw1 & Ha1 & Ho1).
+  - apply andb_true_iff in Hd as [Hdv Hd2].
+    pose proof (M_set_refines f k v fill fdt Hwf Hdv) as (Hw1 & Ha1 & Ho1).
     destruct (GrowOnly.M_set L V leq as_pos cast resolve f k v fill fdt) as [f1 o] eqn:E1.
     destruct (GrowOnly.S_set L V leq cast resolve (GrowOnly.abs_fgo L V f) k v fill fdt) as [a1 o'] eqn:E2.
     cbn in *. destruct o as [u|e]; [|discriminate].
@@ -263,8 +274,8 @@ Lemma M_items_refines : forall pairs f fill fdt,
 Proof.
   intros [|[k v] r] f fill fdt Hwf Hd; cbn in *.
   - split; [|split]; auto.
-  - apply andb_true_iff in Hd as [Hd Hd2]. apply andb_true_iff in Hd as [Hda Hdv].
-    pose proof (M_set_refines f k v fill fdt Hwf Hda Hdv) as (Hw1 & Ha1 & Ho1).
+  - apply andb_true_iff in Hd as [Hdv Hd2].
+    pose proof (M_set_refines f k v fill fdt Hwf Hdv) as (Hw1 & Ha1 & Ho1).
     pose proof (S_set_err_same (GrowOnly.abs_fgo L V f) k v fill fdt) as Hsame.
     destruct (GrowOnly.M_set L V leq as_pos cast resolve f k v fill fdt) as [f1 o] eqn:E1.
     destruct (GrowOnly.S_set L V leq cast resolve (GrowOnly.abs_fgo L V f) k v fill fdt) as [a1 o'] eqn:E2.
@@ -319,15 +330,15 @@ Lemma M_step_refines : forall f op, fgo_wf f -> dom_gop f op = true ->
   fstep_refines (M_step f op) (S_step (abs_fgo f) op).
 Proof.
   intros f [k v fill fdt|pairs fill fdt|name sidx dt vals fill fdt|fidx fcols blocks fill fdt| |] Hwf Hd.
-  - cbn in Hd. apply andb_true_iff in Hd as [Hd Hv]. now apply M_set_refines.
+  - cbn in Hd. now apply M_set_refines.
   - now apply M_items_refines.
   - (* extend(Series) *)
     destruct f as [rows c t]. pose proof Hwf as (Hc & Ht & Hn & Hr). cbn in Hc, Ht, Hn, Hr, Hd.
-    apply andb_true_iff in Hd as [Hd Hlen]. apply Z.eqb_eq in Hlen.
+    rename Hd into Hlen. apply Z.eqb_eq in Hlen.
     cbn [GrowOnly.M_step GrowOnly.S_step f_cols f_rows f_tb GrowOnly.abs_fgo s_labels s_rows s_cols].
     pose proof (align_length rows sidx dt vals fill fdt ltac:(unfold zlen in *; lia)) as Hal.
     destruct (align rows sidx dt vals fill fdt) as [d vs] eqn:Eal. cbn in Hal.
-    pose proof (M_append_refines L leq as_pos leq_refl leq_sym pos_eq c name Hc Hd) as (Hw2 & Hl2 & Ho2).
+    pose proof (M_append_refines L leq as_pos leq_refl leq_sym pos_eq c name Hc) as (Hw2 & Hl2 & Ho2).
     unfold GrowOnly.S_append in Hl2, Ho2.
     destruct (GrowOnly.M_append L leq as_pos c name) as [c2 o] eqn:Ea. cbn in Hw2, Hl2, Ho2.
     destruct (mem name (g_lm c)) eqn:Hm; cbn in Hl2, Ho2.
